@@ -92,7 +92,7 @@ impl Engine for Bcast {
         "bcast"
     }
     fn serves(&self) -> &'static [&'static str] {
-        &["C14"]
+        &["C14", "C03", "C04"]
     }
     fn nontrivial_rule(&self) -> &'static str {
         "a case is one query broadcaster with 0-6 scripted repliers (map, filter) driven by broadcast / poll / drop (cancel) / \
@@ -378,10 +378,10 @@ impl Engine for Bcast {
                     match got {
                         Some(v) => {
                             if v != pushed {
-                                out.monitor.push((
-                                    "C14".into(),
-                                    format!("`{line}`: a send through clone {c} used connections {v:?}, but connections {pushed:?} had been added (through any clone) before it"),
-                                ));
+                                let what = format!("`{line}`: a send through clone {c} used connections {v:?}, but connections {pushed:?} had been added (through any clone) before it");
+                                out.monitor.push(("C14".into(), what.clone()));
+                                // a connected recipient that a send does not reach (C03: delivery to every connected recipient)
+                                out.monitor.push(("C03".into(), what));
                             }
                             if c != 0 && !pushed.is_empty() {
                                 out.nontrivial = true;
@@ -552,7 +552,10 @@ impl Engine for Bcast {
                                 st.woken[c] = true;
                             }
                             if st.armed && after == before {
-                                out.monitor.push(("C14".into(), format!("the broadcast had returned Pending and sub-task {c} was then woken (first wake-up since), but the caller's waker was not notified: the broadcast would never be polled again")));
+                                let what = format!("the broadcast had returned Pending and sub-task {c} was then woken (first wake-up since), but the caller's waker was not notified: the broadcast would never be polled again");
+                                out.monitor.push(("C14".into(), what.clone()));
+                                // the handler that awaits this broadcast is left half-way for good (C04)
+                                out.monitor.push(("C04".into(), what));
                             }
                         }
                         if after != before || current {
